@@ -106,10 +106,11 @@ Definition c03_solve_e2e (a : list Z) : list Z :=
   | _ => []
   end.
 
-(* [nerr; errs...; nq; answers...] -> [0 ok / 1 no path / 2 multiple; index of the chosen path] *)
+(* [n; kinds...; answers...] -> [0 ok / 1 no path / 2 multiple; index of the chosen path]
+   kind of a setUp path: bit 0 = output.error is set, bit 1 = is_stuck() *)
 Fixpoint index_paths (i : Z) (errs ans : list Z) : list (spath (Z * Z)) :=
   match errs, ans with
-  | e :: es, a :: as_ => mkSpath (z2b e) (i, a) :: index_paths (i + 1) es as_
+  | e :: es, a :: as_ => mkSpath (Z.odd e) (Z.odd (e / 2)) (i, a) :: index_paths (i + 1) es as_
   | _, _ => []
   end.
 Definition c03_setup (a : list Z) : list Z :=
